@@ -140,9 +140,10 @@ Section Shape.
                       (* [n]byte is an array of numbers; only []byte is base64 *)
                       ShTuple (Z.to_nat (nr_len n)) (shape_of f false e)
                     else
+                      (* a slice whose element kind is uint8 (byte, or any defined type over it) is base64 text *)
                       match node_of e with
-                      | Some m => match nr_bkind m with
-                                  | Some KUint8 => if akind_eqb (nr_kind m) KdBasic then ShNullable ShString else ShNullable (ShArrayOf (shape_of f false e))
+                      | Some m => match basic_of pr e with
+                                  | Some KUint8 => ShNullable ShString
                                   | _ => if named && is_union_node e then ShArrayOf (shape_of f false e) else ShNullable (ShArrayOf (shape_of f false e))
                                   end
                       | None => ShAny end
@@ -161,7 +162,24 @@ Section Shape.
         end
     end.
 
-  Definition has_omitempty (f : afield) : bool := contains ",omitempty" (tag_lookup "json" (af_tag f)).
+  (** omitempty never omits a struct (time.Time, the wrapper of an union field included) *)
+  Fixpoint never_empty (fuel : nat) (t : gty) : bool :=
+    match fuel with
+    | O => false
+    | S f =>
+        match node_of t with
+        | Some n =>
+            match nr_kind n with
+            | KdStruct | KdUnion | KdTime => true
+            | KdNamed => match nr_children n with [u] => never_empty f u | _ => false end
+            | _ => false
+            end
+        | None => false
+        end
+    end.
+
+  Definition has_omitempty (f : afield) : bool :=
+    contains ",omitempty" (tag_lookup "json" (af_tag f)) && negb (never_empty 3 (af_type f)).
 
   (** environment: one definition per struct and union node *)
   Definition env_of : jenv :=
